@@ -33,6 +33,10 @@ type LoopC struct {
 	Ord  int
 	Invs []*Clause
 	Decr *Clause
+	// Exhaustive: the loop is left only through its header (the range is
+	// exhausted / the condition fails): no break, return or goto out of the body
+	Exhaustive     bool
+	ExhaustiveTags []string
 }
 
 type CallsiteC struct {
@@ -144,7 +148,7 @@ var specRe = regexp.MustCompile(`^spec\s+([A-Za-z_][A-Za-z0-9_]*)\s*\(([^)]*)\)\
 var lemmaRe = regexp.MustCompile(`^lemma(\[[A-Za-z0-9,]+\])?\s+([A-Za-z_][A-Za-z0-9_]*)\s*\(([^)]*)\)\s*(induct\s+([A-Za-z_][A-Za-z0-9_]*))?\s*$`)
 
 var topKeywords = []string{"typeinv ", "assume-typeinv ", "spec ", "axiom ", "lemma ", "lemma[", "func ", "extern ", "funcfield ", "functype ", "nopanic "}
-var subKeywords = []string{"requires", "ensures", "defines", "invariant", "decreases", "assert", "assume", "panics", "modifies", "pure", "loop ", "callsite ", "noswallow", "ghost ", "abstracts ", "maypanic", "before:", "after:", "uses ", "ignore ", "pattern ", "preserves ", "nullable ", "havoc ", "hint "}
+var subKeywords = []string{"requires", "ensures", "defines", "invariant", "decreases", "assert", "assume", "panics", "modifies", "pure", "loop ", "callsite ", "noswallow", "ghost ", "abstracts ", "maypanic", "before:", "after:", "uses ", "ignore ", "pattern ", "preserves ", "nullable ", "havoc ", "hint ", "exhaustive"}
 
 func startsWithAny(s string, ks []string) bool {
 	for _, k := range ks {
@@ -325,6 +329,12 @@ func ParseContractFile(path string) (*CFile, error) {
 			}
 			curF.Pure = true
 			curF.AssumePure = t == "assume-pure"
+		case t == "exhaustive" || strings.HasPrefix(t, "exhaustive["):
+			if curLoop == nil {
+				return nil, errf(l, "exhaustive outside loop")
+			}
+			curLoop.Exhaustive = true
+			curLoop.ExhaustiveTags = parseTags(strings.TrimPrefix(t, "exhaustive"))
 		case strings.HasPrefix(t, "hint "):
 			if curF == nil {
 				return nil, errf(l, "hint outside func")
